@@ -246,6 +246,18 @@ def build_props(prop, translators=()):
             if m:
                 ax.append(m.group(1))
     st.axioms = sorted(set(ax))
+    # thorough tier: the independent checker re-checks the compiled cone and lists the axioms it relies on
+    st.coqchk = None
+    if rc == 0 and os.environ.get("VERIF_COQCHK", "1" if os.environ.get("VERIF_TIER_EFFECTIVE") == "thorough" else "0") == "1":
+        rc2, out2 = sh(["coqchk", "-o", "-silent", "-Q", "theories", "PyCasbin", "-Q", "gen", "PyCasbinGen", f"PyCasbin.Props.{prop}"],
+                       cwd=COQ, timeout=3000)
+        m2 = re.search(r"CONTEXT SUMMARY\n=+\n((?:.|\n)*)", out2)
+        summ = " ".join((m2.group(1) if m2 else out2[-600:]).split())
+        st.coqchk = f"coqchk -o PyCasbin.Props.{prop}: exit {rc2}; {summ[:500]}"
+        st.log += "\n" + st.coqchk
+        if rc2 != 0:
+            rc = rc2
+            out += "\nError: coqchk rejected the compiled cone: " + out2[-600:]
     if rc == 0 and not bad and tok:
         st.ok = True
         st.discharged = total
@@ -383,6 +395,7 @@ class Check:
             self.tier = args[args.index("--tier") + 1]
         if self.tier not in ("quick", "thorough"):
             self.tier = "quick"
+        os.environ["VERIF_TIER_EFFECTIVE"] = self.tier if "--replay" not in args else "quick"
         self.replay_file = args[args.index("--replay") + 1] if "--replay" in args else None
         try:
             self.seed = int(os.environ.get("VERIF_SEED", "20260926"))
@@ -469,6 +482,7 @@ class Check:
                 "Coq 8.16.1 kernel (coqc, full .vo build; vm_compute used in proofs by computation; no native_compute)",
                 "axioms reported by Print Assumptions in this run: " + (", ".join(pr.axioms) if pr.axioms else
                                                                         f"none ({pr.closed} x 'Closed under the global context')"),
+                *([pr.coqchk] if getattr(pr, "coqchk", None) else []),
                 "extraction: ExtrOcamlBasic only (bool/option/unit/list/prod/sumbool/sumor, andb/orb inlined); N/Z/positive/nat stay inductive; OCaml 4.13.1 + oracle/driver.ml (correspondence only)",
             ],
             theorems=pr.theorems,
